@@ -263,6 +263,11 @@ func runC16Three(s c16tScen, c *ev.Case) (out *ev.Violation) {
 				continue
 			}
 			broadcast(i, "unsubscribe")
+			// a message forwarded to this node for the subscription must have arrived before the subscription goes:
+			// the publisher's PUBACK only says the origin node has it
+			if v := drainAll(); v != nil {
+				return v
+			}
 			pid++
 			if _, err := subs[i].Unsubscribe(pid, f); err != nil {
 				return harnessErr("unsubscribe: %v", err)
